@@ -302,6 +302,32 @@ def r12(src, counts):
     return src
 
 
+def r16(src, counts):
+    """`io::Error::new(<kind>, <msg>)` -> `crate::io_error_stub()` (the message and kind of an io::Error are
+    opaque to Verus, like format! under R3); `std::u64::MAX` -> `u64::MAX` (legacy module path)."""
+    src = _remove_calls(src, r'\bio::Error::new\(', counts, 'R16.io_error_new', replacement='crate::io_error_stub()',
+                        eat_semicolon=False)
+    src, k = re.subn(r'\bstd::(u64|u32|usize)::MAX\b', r'\1::MAX', src)
+    counts['R16.legacy_int_max'] += k
+    return src
+
+
+def r13(src, counts):
+    """`impl<W> Write for Stream<W>` becomes an inherent impl (`pub fn write`, `pub fn flush`): the
+    methods keep their bodies, only the trait-ness is dropped, so that their contracts can speak about
+    the compressed bytes accepted instead of the generic sink vocabulary of the Write specification."""
+    mo = re.search(r'^impl<W> Write for Stream<W>', src, flags=re.M)
+    if not mo:
+        return src
+    m = mask(src)
+    ob = m.index('{', mo.end())
+    cb = match_close(m, ob, '{', '}')
+    body = src[ob:cb + 1]
+    body2, k = re.subn(r'^(\s*)fn (write|flush)\(', r'\1pub fn \2(', body, flags=re.M)
+    counts['R13.stream_write_inherent'] += 1
+    return src[:mo.start()] + 'impl<W> Stream<W>' + src[mo.end():ob] + body2 + src[cb + 1:]
+
+
 def r15(src, counts):
     """A `let x = ..;` at the top level of a function body that shadows parameter `x` is alpha-renamed
     to `x_shadow` for the remainder of the body (contracts need to name the parameter at every exit)."""
@@ -370,6 +396,6 @@ def extract_file(path, modpath):
     """Return (rewritten_source, counts)."""
     counts = Counter()
     src = open(path).read()
-    for rule in (r1, r2, r3, r4, r5, r6, r7, r8, r9, r10, r11, r12, r15):
+    for rule in (r1, r2, r3, r4, r5, r6, r7, r8, r9, r10, r11, r12, r13, r16, r15):
         src = rule(src, counts)
     return src, counts
